@@ -48,9 +48,9 @@ theorem req_weight_conserved_current {T : Tun} (hT : TunOK T) (F : SecFns ρ) (o
   ⟨l, a, b, c⟩
 
 /-- the former witness: on the empty sketch the repaired iteration is empty (begin() == end()) -/
-example : (Sketch.new genTun (⟨fun _ => (), id, fun _ => 0⟩ : SecFns Unit) 4 false).iterateF ⟨true, true⟩ = some [] := by decide +kernel
+example : (Sketch.new pinTun (⟨fun _ => (), id, fun _ => 0⟩ : SecFns Unit) 4 false false).iterateF ⟨true, true⟩ = some [] := by decide +kernel
 
-example : ∃ s : Sketch Unit, (run genTun ⟨fun _ => (), id, fun _ => 0⟩ ([.new 0 4 false] ++ (List.range 30).map (fun i => Op.upd 0 (Int.ofNat i))) [true]).1.get 0 = some s
+example : ∃ s : Sketch Unit, (run pinTun ⟨fun _ => (), id, fun _ => 0⟩ ([.new 0 4 false] ++ (List.range 30).map (fun i => Op.upd 0 (Int.ofNat i))) [true]).1.get 0 = some s
     ∧ (s.iterateF ⟨true, true⟩).map List.length = some 28 := ⟨_, rfl, by decide +kernel⟩
 
 /-- invalid_rejected (REQ's `get_quantile`), repaired range check: a query is answered only for a non-empty sketch and a rank with
